@@ -5,8 +5,14 @@ D=$1; P=$2; T=${3:-quick}
 cd /repo || exit 2
 if [ -n "$(git status --porcelain --untracked-files=no)" ]; then echo "/repo not clean"; exit 2; fi
 git apply "$D/patch.diff" || { echo "patch does not apply"; exit 2; }
+# the evidence file describes the unchanged tree: keep it over the run on the patched one
+[ -f /verif/evidence/$P.json ] && cp /verif/evidence/$P.json /tmp/seedtest.$$.evidence
+ls /verif/replays 2>/dev/null | sort > /tmp/seedtest.$$.replays
 cd /verif && ./check "$P" --tier "$T" > /tmp/seedtest.$$.log 2>&1; rc=$?
+[ -f /tmp/seedtest.$$.evidence ] && mv /tmp/seedtest.$$.evidence /verif/evidence/$P.json
 git -C /repo checkout -- .
+# replays written by this run describe the patched tree: print the first, keep none
+for f in $(ls /verif/replays 2>/dev/null | sort | comm -13 /tmp/seedtest.$$.replays -); do rm -f /verif/replays/$f; done; rm -f /tmp/seedtest.$$.replays
 grep -E "VIOLATION|KNOWN-FINDING|TOOL-FAILURE" /tmp/seedtest.$$.log | head -5
 grep -A1 "^VIOLATION" /tmp/seedtest.$$.log | sed -n 2p | cut -c1-400
 echo "rc=$rc"; rm -f /tmp/seedtest.$$.log
